@@ -38,6 +38,14 @@ type genJob struct {
 	ProbeCommon string            `json:"probe_common,omitempty"`
 	Probes      map[string]string `json:"probes,omitempty"` // package dir → probe file of package main; dropped when that package does not build
 	KeepOnFail  bool              `json:"keep_on_fail,omitempty"`
+	Base        string            `json:"base,omitempty"` // OutputFileBaseName; "" = zz_generated
+}
+
+func (j *genJob) base() string {
+	if j.Base == "" {
+		return pipeBase
+	}
+	return j.Base
 }
 
 type genRunOut struct {
@@ -49,13 +57,13 @@ type genRunOut struct {
 	Harness   string              `json:"harness,omitempty"`
 }
 
-func collectGenerated(dir string) map[string]string {
+func collectGenerated(dir string, base string) map[string]string {
 	m := map[string]string{}
 	filepath.Walk(dir, func(p string, info os.FileInfo, err error) error {
 		if err != nil || info.IsDir() {
 			return nil
 		}
-		if strings.HasPrefix(filepath.Base(p), pipeBase+".") {
+		if strings.HasPrefix(filepath.Base(p), base+".") {
 			rel, _ := filepath.Rel(dir, p)
 			b, _ := os.ReadFile(p)
 			m[rel] = string(b)
@@ -178,7 +186,7 @@ func runGenJobHere(job *genJob) *genRunOut {
 					res = fmt.Sprintf("panic: %v", rv)
 				}
 			}()
-			ctx, err := gengo.NewContext(&gengo.GeneratorArgs{Entrypoint: job.Entry, OutputFileBaseName: pipeBase, All: job.All})
+			ctx, err := gengo.NewContext(&gengo.GeneratorArgs{Entrypoint: job.Entry, OutputFileBaseName: job.base(), All: job.All})
 			if err != nil {
 				return "load: " + err.Error()
 			}
@@ -188,7 +196,7 @@ func runGenJobHere(job *genJob) *genRunOut {
 			return ""
 		}()
 		out.ExecErr = append(out.ExecErr, errText)
-		out.Generated = append(out.Generated, collectGenerated(root))
+		out.Generated = append(out.Generated, collectGenerated(root, job.base()))
 		out.BuildFail = append(out.BuildFail, buildPackages(root, mod, job.Entry))
 	}
 	if job.ProbeCommon != "" {
